@@ -62,8 +62,9 @@ def gateOracle (fields : List (FInfo × Shape)) (o : Oracle) : Oracle :=
 def gatedKeys (fields : List (FInfo × Shape)) : List (String × String × Bool) :=
   (fields.filter fun f => isGated f.1.name).map fun f => (f.1.alias, f.1.name, f.2.nn)
 
-/-- gated fields carry no schema directives (hypothesis of the theorems; evaluated by the driver) -/
+/-- gated fields carry no schema directives and are bound to methods of the execution context, not read
+    from a struct field (hypothesis of the theorems; evaluated by the driver) -/
 def gatedNoDirs (fields : List (FInfo × Shape)) : Bool :=
-  fields.all fun f => !isGated f.1.name || f.1.dirs.isEmpty
+  fields.all fun f => !isGated f.1.name || (f.1.dirs.isEmpty && !f.1.plain)
 
 end GqlgenVerif.IntroGate
